@@ -63,6 +63,7 @@ class Ctx:
         self.step_budget = step_budget
         self.entered = set()
         self._n = 0
+        _XT.clear()
 
     # ---------------------------------------------------------------- inputs
     def _decl(self, name, lo, hi, kind="int"):
@@ -740,254 +741,32 @@ class SInt:
             return NotImplemented
         if isinstance(o, int) and o == 0:
             return self
-        return self._bitop(o, "xor")
-
-    __rxor__ = __xor__
-
-    def __invert__(self):
-        return mkbool(z3.Not(self.e))
-
-    def __eq__(self, o):
-        if isinstance(o, (bool, SBool)):
-            return mkbool(self.e == E(o))
-        return bool(self) == o
-
-    def __ne__(self, o):
-        r = self.__eq__(o)
-        return mkbool(neg(r))
-
-    def __hash__(self):
-        return hash(bool(self))
-
-    def __index__(self):
-        return int(bool(self))
-
-    __int__ = __index__
-
-    def __repr__(self):
-        return "<SBool>"
-
-
-def _pow2(k):
-    return 1 << k
-
-
-def _bitand_const(e, m):
-    """e & m for a non-negative Int expr e and non-negative int constant m."""
-    if m == 0:
-        return 0
-    # contiguous runs of set bits
-    res = None
-    i = 0
-    while (1 << i) <= m:
-        if m >> i & 1:
-            j = i
-            while m >> j & 1:
-                j += 1
-            # bits i..j-1
-            part = e if i == 0 else e / _pow2(i)
-            part = part % _pow2(j - i)
-            if i:
-                part = part * _pow2(i)
-            res = part if res is None else res + part
-            i = j
-        else:
-            i += 1
-    return res
-
-
-class SInt:
-    __slots__ = ("e", "bits")
-
-    def __init__(self, e, bits=None):
-        self.e = e
-        self.bits = bits  # known: 0 <= value < 2**bits, or None
-
-    # --- conversions
-    def __index__(self):
-        return Ctx.cur.concretize(self.e, "index")
-
-    __int__ = __index__
-
-    def __bool__(self):
-        return Ctx.cur.fork(self.e != 0)
-
-    def __hash__(self):
-        return hash(self.__index__())
-
-    def __repr__(self):
-        return "<SInt>"
-
-    __str__ = __repr__
-
-    def __format__(self, spec):
-        return "<SInt>"
-
-    # --- comparisons
-    def __eq__(self, o):
-        if isinstance(o, (int, SInt)) and not isinstance(o, bool) or isinstance(o, bool):
-            return mkbool(self.e == E(o) if not isinstance(o, bool) else self.e == int(o))
-        if isinstance(o, float):
-            return mkbool(z3.ToReal(self.e) == z3.RealVal(o))
-        return False
-
-    def __ne__(self, o):
-        return mkbool(neg(self.__eq__(o)))
-
-    def _cmp(self, o, op):
-        if isinstance(o, float):
-            return mkbool(op(z3.ToReal(self.e), z3.RealVal(o)))
-        if not isinstance(o, (int, SInt)):
-            return NotImplemented
-        return mkbool(op(self.e, E(o)))
-
-    def __lt__(self, o):
-        return self._cmp(o, lambda a, b: a < b)
-
-    def __le__(self, o):
-        return self._cmp(o, lambda a, b: a <= b)
-
-    def __gt__(self, o):
-        return self._cmp(o, lambda a, b: a > b)
-
-    def __ge__(self, o):
-        return self._cmp(o, lambda a, b: a >= b)
-
-    # --- arithmetic
-    def _ok(self, o):
-        return isinstance(o, (int, SInt))
-
-    def __add__(self, o):
-        if not self._ok(o):
-            return NotImplemented
-        return SInt(self.e + E(o))
-
-    __radd__ = __add__
-
-    def __sub__(self, o):
-        if not self._ok(o):
-            return NotImplemented
-        return SInt(self.e - E(o))
-
-    def __rsub__(self, o):
-        if not self._ok(o):
-            return NotImplemented
-        return SInt(E(o) - self.e)
-
-    def __mul__(self, o):
-        if not self._ok(o):
-            return NotImplemented
-        return SInt(self.e * E(o))
-
-    __rmul__ = __mul__
-
-    def __neg__(self):
-        return SInt(-self.e)
-
-    def __pos__(self):
-        return self
-
-    def __abs__(self):
-        return SInt(z3.If(self.e >= 0, self.e, -self.e))
-
-    def __floordiv__(self, o):
-        if not self._ok(o):
-            return NotImplemented
-        if isinstance(o, int) and o > 0:
-            return SInt(self.e / o)  # z3 Int div: floor for positive divisor
-        d = E(o)
-        if bool(mkbool(d == 0)):
-            raise ZeroDivisionError("integer division or modulo by zero")
-        # python floor division for any sign
-        q = self.e / d
-        return SInt(z3.If(d > 0, q, z3.If(self.e % d == 0, q, (-self.e) / (-d))))
-
-    def __rfloordiv__(self, o):
-        return SInt(z3.IntVal(o)).__floordiv__(self)
-
-    def __mod__(self, o):
-        if not self._ok(o):
-            return NotImplemented
-        if isinstance(o, int) and o > 0:
-            return SInt(self.e % o, o.bit_length())
-        d = E(o)
-        if bool(mkbool(d == 0)):
-            raise ZeroDivisionError("integer division or modulo by zero")
-        r = self.e % d  # z3: 0 <= r < |d|
-        return SInt(z3.If(d > 0, r, z3.If(r == 0, r, r + d)))
-
-    def __rmod__(self, o):
+        # XOR is kept in a normal form (constant + set of distinct symbolic terms) so
+        # that (x ^ m) ^ m cancels syntactically instead of burdening the solver
+        ca, ta = _xor_terms(self.e)
         if isinstance(o, int):
-            return SInt(z3.IntVal(o)).__mod__(self)
-        return NotImplemented
-
-    def __divmod__(self, o):
-        return (self // o, self % o)
-
-    def __truediv__(self, o):
-        # floats are outside the integer encoding: realise
-        v = Ctx.cur.realise(self.e, "SInt true division")
-        return v / (int(o) if isinstance(o, SInt) else o)
-
-    def __pow__(self, o):
-        if isinstance(o, int) and 0 <= o <= 4:
-            r = z3.IntVal(1)
-            for _ in range(o):
-                r = r * self.e
-            return SInt(r)
-        return int(self) ** int(o)
-
-    def __lshift__(self, k):
-        k = int(k)
-        return SInt(self.e * _pow2(k), None if self.bits is None else self.bits + k)
-
-    def __rshift__(self, k):
-        k = int(k)
-        return SInt(self.e / _pow2(k), None if self.bits is None else max(self.bits - k, 0))
-
-    def __rlshift__(self, o):
-        return o << int(self)
-
-    def __rrshift__(self, o):
-        return o >> int(self)
-
-    def _width(self, o):
-        wa = self.bits
-        wb = o.bits if isinstance(o, SInt) else (o.bit_length() if o >= 0 else None)
-        if wa is None or wb is None:
-            return 64
-        return max(wa, wb, 1)
-
-    def _bv(self, o, op):
+            cb, tb = o, {}
+        else:
+            cb, tb = _xor_terms(o.e)
+        c = ca ^ cb
+        t = dict(ta)
+        for k, v in tb.items():
+            if k in t:
+                del t[k]
+            else:
+                t[k] = v
         w = self._width(o)
-        a = z3.Int2BV(self.e, w)
-        b = z3.Int2BV(E(o), w) if isinstance(o, SInt) else z3.BitVecVal(o, w)
-        return SInt(z3.BV2Int(op(a, b)), w)
-
-    def __and__(self, o):
-        if isinstance(o, int) and o >= 0:
-            r = _bitand_const(self.e, o)
-            return SInt(r, o.bit_length()) if not isinstance(r, int) else r
-        if not self._ok(o):
-            return NotImplemented
-        return self._bv(o, lambda a, b: a & b)
-
-    __rand__ = __and__
-
-    def __or__(self, o):
-        if not self._ok(o):
-            return NotImplemented
-        if isinstance(o, int) and o == 0:
-            return self
-        # disjoint-bits fast path: (x << k) | y with y < 2**k
-        return self._bv(o, lambda a, b: a | b)
-
-    __ror__ = __or__
-
-    def __xor__(self, o):
-        if not self._ok(o):
-            return NotImplemented
-        return self._bv(o, lambda a, b: a ^ b)
+        if not t:
+            return c
+        items = sorted(t.items())
+        acc = SInt(items[0][1], w)
+        for _k, v in items[1:]:
+            acc = acc._bitop(SInt(v, w), "xor")
+        if c:
+            acc = acc._bitop(c, "xor")
+        if len(t) > 1 or c:
+            _XT[acc.e.get_id()] = (c, t, acc.e)
+        return acc
 
     __rxor__ = __xor__
 
@@ -1016,6 +795,16 @@ class SInt:
 
     def conjugate(self):
         return self
+
+
+_XT = {}
+
+
+def _xor_terms(e):
+    r = _XT.get(e.get_id())
+    if r is not None:
+        return r[0], r[1]
+    return 0, {e.get_id(): e}
 
 
 def is_sym(x):
